@@ -115,9 +115,11 @@ def run_scenarios(ctx, builds, scen, label, tlc_timeout):
     paths = {}; nanswers = 0
     driven = [i for i, l in enumerate(lines) if l is not None]
     for bname, exe in builds:
-        res_d = common.batch_run(exe, [lines[i] for i in driven], timeout=600)
+        # a build whose driver died 8 times (each death reported below) is cut short: the check ends with a verdict in bounded time
+        res_d = common.batch_run(exe, [lines[i] for i in driven], timeout=600, max_crashes=8, on_excess="skip")
         for i, a in zip(driven, res_d):
             s = scen[i]
+            if isinstance(a, dict) and a.get("skipped"): continue
             if isinstance(a, dict):
                 k = a["crash"]
                 ctx.fail("%s:%s:%s:%s" % (s["alg"], s["kind"], k[0], k[1] or "driver"), "build %s\ncase %s\n%s" % (bname, lines[i][:300], a["raw"]),
